@@ -404,6 +404,15 @@ impl Prop for C20 {
                         return;
                     }
                 }
+                // the statement text of a context ends with the position of that very statement
+                // ("… at (row, column)", 1-based): the plain rendering has no other source for it
+                for c in ctx {
+                    let want = format!("at ({}, {})", c.statement_loc.0 + 1, c.statement_loc.1 + 1);
+                    if !c.statement.trim_end().ends_with(&want) {
+                        out.violation(&format!("C20:statement-text-cites-another-position:{}:{}", mode, fault.name()), &format!("the context's statement location is {:?}, its statement text is {:?}", c.statement_loc, crate::util::trunc(&c.statement, 200)), case());
+                        return;
+                    }
+                }
                 let named: Vec<(usize, usize)> = ctx.iter().map(|c| c.statement_loc).collect();
                 let fl = loc_of[&failing_id];
                 let fl = (fl.row, fl.col);
